@@ -22,6 +22,8 @@ pub struct Gen<'a> {
     pub allow_zero: bool,
     /// no list expressions, no `n^(expr)`, no calls of user functions (the body fragment of C16)
     pub plain: bool,
+    /// the intended parameter types of the function `gen_fn_plain` produced last
+    pub last_intents: Vec<(String, Ty)>,
 }
 
 fn letters(mut n: usize) -> String {
@@ -49,7 +51,7 @@ pub fn pool() -> Vec<V> {
 
 impl<'a> Gen<'a> {
     pub fn new(rng: &'a mut Rng, w: World) -> Gen<'a> {
-        Gen { rng, w, user_fns: vec![], user_dims: vec![], counter: 0, locals: vec![], allow_zero: true, plain: false }
+        Gen { rng, w, user_fns: vec![], user_dims: vec![], counter: 0, locals: vec![], allow_zero: true, plain: false, last_intents: vec![] }
     }
     pub fn name(&mut self, prefix: &str) -> String {
         let n = format!("{}{}", prefix, letters(self.counter));
@@ -67,6 +69,11 @@ impl<'a> Gen<'a> {
             0 => a.scale(Q::int(-1)),
             1 => a.add(self.rng.pick(&p)),
             2 => a.sub(self.rng.pick(&p)),
+            // rational exponents (annotations such as `Length^(1/2)`, `Time^(-3/2)`)
+            3 => {
+                let (n, d) = *self.rng.pick(&[(1i128, 2i128), (1, 2), (3, 2), (1, 3), (-1, 2), (2, 3), (5, 2)]);
+                a.scale(Q::new(n, d))
+            }
             _ => a,
         }
     }
@@ -115,11 +122,16 @@ impl<'a> Gen<'a> {
         let sym: Vec<(Atom, Q)> = v.0.iter().filter(|(a, _)| matches!(a, Atom::TPar(_))).map(|(a, e)| (a.clone(), *e)).collect();
         for (a, e) in sym {
             // a parameter whose intended dimension involves this axis
-            let cands: Vec<(String, V)> = self
+            // (a list-typed parameter contributes through `head`/`sum`/`maximum`/`mean` of it)
+            let cands: Vec<(String, V, bool)> = self
                 .locals
                 .iter()
                 .filter_map(|(n, t)| match t {
-                    Ty::D(pv) if !pv.get(&a).is_zero() => Some((n.clone(), pv.clone())),
+                    Ty::D(pv) if !pv.get(&a).is_zero() => Some((n.clone(), pv.clone(), false)),
+                    Ty::L(el) => match &**el {
+                        Ty::D(pv) if !pv.get(&a).is_zero() => Some((n.clone(), pv.clone(), true)),
+                        _ => None,
+                    },
                     _ => None,
                 })
                 .collect();
@@ -129,11 +141,16 @@ impl<'a> Gen<'a> {
             if rest.get(&a).is_zero() {
                 continue;
             }
-            let (n, pv) = self.rng.pick(&cands).clone();
+            let (n, pv, is_list) = self.rng.pick(&cands).clone();
             let k = rest.get(&a).div(pv.get(&a));
             let _ = e;
             rest = rest.sub(&pv.scale(k));
-            let p = E::Var(n);
+            let p = if is_list {
+                let f = *self.rng.pick(&["head", "sum", "maximum", "mean", "head"]);
+                E::Call(f.into(), vec![E::Var(n)])
+            } else {
+                E::Var(n)
+            };
             factors.push(if k == Q::one() { p } else { E::Pow(Box::new(p), k, false) });
         }
         // whatever symbolic axes are still left (parameters with mixed intents): use primaries
@@ -562,10 +579,13 @@ impl<'a> Gen<'a> {
                 }
             };
             params.push((pn.clone(), None));
-            intents.push((pn, Ty::D(v)));
+            // every fifth parameter is a list of quantities of that dimension
+            let is_list = self.rng.chance(1, 5);
+            intents.push((pn, if is_list { Ty::L(Box::new(Ty::D(v))) } else { Ty::D(v) }));
         }
         let mut rv = if self.rng.chance(1, 3) { self.rand_dim() } else { V::zero() };
         for (_, t) in &intents {
+            let t = if let Ty::L(el) = t { &**el } else { t };
             if let Ty::D(v) = t {
                 match self.rng.below(6) {
                     0 => rv = rv.add(v),
@@ -580,6 +600,7 @@ impl<'a> Gen<'a> {
         if rv.0.values().any(|q| q.n.abs() > 6 || q.d > 6) {
             rv = self.rand_dim();
         }
+        self.last_intents = intents.clone();
         self.locals = intents;
         let mut body = self.dexpr(&rv, depth);
         // half of the bodies get a second summand / a comparison of the same dimension, so that inference has to
@@ -611,6 +632,13 @@ impl<'a> Gen<'a> {
                     let other = self.leaf(&v.clone());
                     let ratio = E::Bin(Op::Div, Box::new(E::Var(pn.clone())), Box::new(other));
                     body = E::Bin(Op::Mul, Box::new(body), Box::new(ratio));
+                }
+                if let Ty::L(el) = t {
+                    if let Ty::D(v) = &**el {
+                        let other = self.leaf(&v.clone());
+                        let ratio = E::Bin(Op::Div, Box::new(E::Call("sum".into(), vec![E::Var(pn.clone())])), Box::new(other));
+                        body = E::Bin(Op::Mul, Box::new(body), Box::new(ratio));
+                    }
                 }
             }
         }
@@ -805,7 +833,8 @@ pub fn mutate(rng: &mut Rng, p: &Prog, m: Mutation) -> Option<Prog> {
                     if rng.chance(1, 3) {
                         Ann::D(DX::Mul(Box::new(d.clone()), Box::new(other_dim_name(rng))))
                     } else if rng.chance(1, 2) {
-                        Ann::D(DX::Pow(Box::new(d.clone()), Q::int(2)))
+                        let (n, dd) = *rng.pick(&[(2i128, 1i128), (3, 2), (1, 2), (-1, 1), (4, 3), (-1, 2)]);
+                        Ann::D(DX::Pow(Box::new(d.clone()), Q::new(n, dd)))
                     } else {
                         Ann::D(other_dim_name(rng))
                     }
